@@ -156,7 +156,7 @@ def run_case(spec, ctx):
                 if not E.well_conditioned(val):
                     continue
                 compared += 1
-                if a.out[i] == b.out[i]:
+                if a.out[i] == b.out[i] or (a.out[i] != a.out[i] and b.out[i] != b.out[i]):
                     bitwise += 1
                     continue
                 tol = 2 * float(E.tolerance(val))
